@@ -101,7 +101,10 @@ static const uint32_t kInterestingCps[] = {
     0xE9,   0xFC,   0xDF,    0x3C2,  0x200D, 0x200C, 0x3002,  0xFF0E, 0xFF41, 0xFF21,
     0x3316, 0xFDF2, 0x301,   0x628,  0x5D0,  0x1F600, 0xAD,   0x2488, 0xFFFD, 0x130,
     0x212B, 0x1E9E, 0x33AF,  0xFB03, 0x2100, 0x3A3,  0x10400, 0x94D, 0x0660, 0x6F0,
-    0x80,   0x7FF,  0x800,   0xFFFF, 0x10000, 0x10FFFF, 0x2028, 0xA0, 0x3000, 0xFF10};
+    0x80,   0x7FF,  0x800,   0xFFFF, 0x10000, 0x10FFFF, 0x2028, 0xA0, 0x3000, 0xFF10,
+    // boundaries of UTF-8 / UTF-16 validity tests: last before and first after the surrogate block, and supplementary
+    // code points whose low 16 bits fall into the surrogate range
+    0xD7FF, 0xE000, 0x1D800, 0x1DFFF, 0x2D800, 0x10D800, 0x10DC00, 0xFDD0, 0x1FFFE};
 static const char kInterestingAscii[] =
     "\t\n\r #%&+-./0123456789:;<=>?@ABCXZ[\\]^_`abcxz{|}~\x7f\x01\x1f!\"$'()*,";
 
@@ -401,6 +404,10 @@ inline std::string gen_port(Rng& r) {
     }
     return o;
   }
+  if (r.chance(1, 24)) {  // tab / LF / CR inside or around the port digits (removed by the parser's preprocessing)
+    static const char* const w[] = {":8\t0", ":\t80", ":80\n", ":4\r43", ":\n", ":80\t80", ":65\t536"};
+    return pick(r, w);
+  }
   return r.chance(1, 2) ? "" : pick(r, p);
 }
 
@@ -430,7 +437,10 @@ inline std::string gen_abs_url(Rng& r) {
     o += r.chance(1, 2) ? gen_credentials(r) : std::string(pick(r, cr));
   }
   if (s == "blob" && r.chance(2, 3)) {
-    return "blob:" + std::string(r.chance(1, 2) ? "https://" : "http://") + gen_host(r) + gen_port(r) + gen_tail(r);
+    // the inner URL decides the origin: every scheme class, any case, optional padding the nested parse strips
+    static const char* const inner[] = {"https://", "http://", "https://", "http://", "HTTPS://", "Http://", " https://", "\thttp://",
+                                        "ftp://", "ws://", "file://", "foo://", "https:", "http:/", "blob:https://"};
+    return "blob:" + std::string(pick(r, inner)) + gen_host(r) + gen_port(r) + gen_tail(r);
   }
   o += gen_host(r);
   o += gen_port(r);
